@@ -107,6 +107,36 @@ Proof.
   intro H. destruct (IH H) as [t' Ht']. rewrite Ht'. eexists. reflexivity.
 Qed.
 
+Lemma h_find_in live b : In b live -> exists x, h_find live (b_addr b) = Some x.
+Proof.
+  induction live as [|y t IH]; simpl; [contradiction|].
+  intros [H|H].
+  - subst y. rewrite Z.eqb_refl. eexists. reflexivity.
+  - destruct (b_addr y =? b_addr b); [eexists; reflexivity | apply IH; exact H].
+Qed.
+
+Lemma h_find_remove_other live p live' q :
+  h_remove live p = Some live' -> q <> p -> h_find live' q = h_find live q.
+Proof.
+  revert live'. induction live as [|y t IH]; simpl; intros live' H Hq; [discriminate|].
+  destruct (b_addr y =? p) eqn:E.
+  - inversion H. subst. destruct (b_addr y =? q) eqn:E2; [lia | reflexivity].
+  - destruct (h_remove t p) as [t'|] eqn:R; [|discriminate]. inversion H. subst. simpl.
+    destruct (b_addr y =? q); [reflexivity | apply IH; [reflexivity | exact Hq]].
+Qed.
+
+Lemma fresh_addr_ne live p sz x : fresh live p sz = true -> In x live -> p <> b_addr x.
+Proof.
+  unfold fresh. intros H Hx. rewrite forallb_forall in H. specialize (H x Hx).
+  apply disjointb_addr in H. exact H.
+Qed.
+
+Lemma heap_wf_nonzero live b : heap_wf live -> In b live -> b_addr b <> 0.
+Proof.
+  induction live as [|y t IH]; simpl; [contradiction|].
+  intros [Hy [_ Ht]] [H|H]; [subst; exact Hy | apply IH; assumption].
+Qed.
+
 (* ------------------------------------------------------------------ memory *)
 Lemma mread_mdrop m lo hi a : ~ (lo <= a < hi) -> mread (mdrop m lo hi) a = mread m a.
 Proof.
@@ -552,6 +582,183 @@ Section WithBackend.
     - apply Done; [exact Hwf | exact Iv | discriminate].
   Qed.
 
+  (* -------- ownership: every vector owns exactly its block, nothing else is live *)
+  Definition owns (live : heap) (v : vec) : Prop :=
+    v_data v = 0 \/ exists x, h_find live (v_data v) = Some x.
+
+  (* v and u: two vectors over the heap [live]; every live block is the storage of one of them
+     and the two storages are different blocks *)
+  Definition pair_own (live : heap) (v u : vec) : Prop :=
+    owns live v /\ owns live u /\ (v_data v = 0 \/ v_data v <> v_data u) /\
+    (forall blk, In blk live -> b_addr blk = v_data v \/ b_addr blk = v_data u).
+
+  Lemma pair_own_sym live v u : pair_own live v u -> pair_own live u v.
+  Proof.
+    intros [A [B [C D]]]. repeat split; try assumption.
+    - destruct (Z.eq_dec (v_data u) 0) as [E|E]; [left; exact E | right].
+      destruct C as [C|C]; [rewrite C; exact E | intro Q; apply C; symmetry; exact Q].
+    - intros blk Hb. destruct (D blk Hb); [right | left]; assumption.
+  Qed.
+
+  Lemma vrealloc_own keep w v u c r w' v' :
+    0 <= c -> heap_wf (w_live ost w) -> pair_own (w_live ost w) v u ->
+    vrealloc keep w v c = (r, w', v') ->
+    r <> OInvalidFree /\ pair_own (w_live ost w') v' u.
+  Proof.
+    intros Hc Hwf [Ov [Ou [Dvu Ex]]]. unfold v_realloc.
+    pose proof (allocate_cases w sizeT 64 c sizeT_pos Hc ltac:(rewrite W_val; lia) assert_ok_64) as AC.
+    destruct (alloc w sizeT 64 c) as [ar w1] eqn:EA.
+    (* the free of the old storage, from a world whose live list is [l1] *)
+    assert (Free : forall (w2 : world ost) l1, w_live ost w2 = l1 ->
+              (forall q, q <> 0 -> q = v_data v -> exists x, h_find l1 q = Some x) ->
+              exists w3, afree w2 (v_data v) = Some w3 /\
+                ((v_data v = 0 /\ w_live ost w3 = l1) \/
+                 (v_data v <> 0 /\ h_remove l1 (v_data v) = Some (w_live ost w3)))).
+    { intros w2 l1 E2 Hf. unfold aligned_free. destruct (v_data v =? 0) eqn:E0.
+      - exists w2. split; [reflexivity|]. left. split; [lia | exact E2].
+      - assert (N : v_data v <> 0) by lia. destruct (Hf _ N eq_refl) as [x Hx]. rewrite E2, Hx.
+        destruct (h_find_remove _ _ _ Hx) as [l' Hl']. rewrite Hl'. eexists. split; [reflexivity|].
+        right. split; [exact N | simpl; reflexivity]. }
+    assert (OwnV : forall q, q <> 0 -> q = v_data v -> exists x, h_find (w_live ost w) q = Some x).
+    { intros q Hq E. subst q. destruct Ov as [Z0|X]; [contradiction | exact X]. }
+    destruct ar as [| | |p|].
+    - (* nullptr: c = 0 *)
+      destruct AC as [_ Hw1]. subst w1.
+      match goal with |- context [afree ?w2 (v_data v)] =>
+        destruct (Free w2 (w_live ost w) eq_refl OwnV) as [w3 [F FS]]; rewrite F end.
+      intro H. inversion H. subst. split; [discriminate|].
+      destruct FS as [[Z0 El]|[N Rm]].
+      + rewrite El. repeat split.
+        * left. reflexivity.
+        * exact Ou.
+        * left. reflexivity.
+        * intros blk Hb. right. destruct (Ex blk Hb) as [Q|Q]; [|exact Q].
+          exfalso. apply (heap_wf_nonzero _ _ Hwf Hb). rewrite Q. exact Z0.
+      + assert (Du : v_data u <> v_data v).
+        { destruct Dvu as [Q|Q]; [contradiction | intro Q2; apply Q; symmetry; exact Q2]. }
+        repeat split.
+        * left. reflexivity.
+        * destruct Ou as [Q|[x Hx]]; [left; exact Q | right]. exists x.
+          rewrite (h_find_remove_other _ _ _ _ Rm Du). exact Hx.
+        * left. reflexivity.
+        * intros blk Hb. right. destruct (Ex blk (h_remove_sub _ _ _ Rm blk Hb)) as [Q|Q]; [|exact Q].
+          exfalso. destruct (h_find_in _ _ Hb) as [y Hy]. rewrite Q in Hy.
+          rewrite (h_remove_gone _ _ _ Hwf Rm) in Hy. discriminate.
+    - intro H. inversion H. subst. destruct AC as [_ AC]. subst. split; [discriminate|].
+      repeat split; assumption.
+    - intro H. inversion H. subst. destruct AC as [_ [_ [El _]]]. split; [discriminate|].
+      rewrite El. repeat split; assumption.
+    - destruct AC as [_ [Hp [_ [_ [Hfresh [El Em]]]]]].
+      set (nb := {| b_addr := p; b_size := c * sizeT |}) in *.
+      assert (Pne : forall x, In x (w_live ost w) -> p <> b_addr x).
+      { intros x Hx. apply (fresh_addr_ne _ _ _ _ Hfresh Hx). }
+      assert (PneV : v_data v <> 0 -> p <> v_data v).
+      { intros N. destruct (OwnV _ N eq_refl) as [x Hx]. apply h_find_some in Hx. destruct Hx as [Hin Ha].
+        rewrite <- Ha. apply Pne. exact Hin. }
+      assert (PneU : p <> v_data u).
+      { destruct Ou as [Q|[x Hx]]; [lia|]. apply h_find_some in Hx. destruct Hx as [Hin Ha].
+        rewrite <- Ha. apply Pne. exact Hin. }
+      assert (Own1 : forall q, q <> 0 -> q = v_data v -> exists x, h_find (nb :: w_live ost w) q = Some x).
+      { intros q Hq E. destruct (OwnV q Hq E) as [x Hx]. simpl.
+        destruct (p =? q) eqn:Ep; [eexists; reflexivity | exists x; exact Hx]. }
+      match goal with |- context [afree ?w2 (v_data v)] =>
+        destruct (Free w2 (nb :: w_live ost w) El Own1) as [w3 [F FS]]; rewrite F end.
+      intro H. inversion H. subst. split; [discriminate|]. cbn [v_data].
+      assert (OuNew : forall l, (forall q, q <> p -> q <> v_data v \/ v_data v = 0 -> h_find l q = h_find (nb :: w_live ost w) q) ->
+                 owns l u).
+      { intros l Hl. destruct Ou as [Q|[x Hx]]; [left; exact Q | right]. exists x.
+        assert (Uq : v_data u <> v_data v \/ v_data v = 0).
+        { destruct Dvu as [Q|Q]; [right; exact Q | left; intro Q2; apply Q; symmetry; exact Q2]. }
+        rewrite (Hl (v_data u) (fun Q => PneU (eq_sym Q)) Uq). simpl.
+        destruct (p =? v_data u) eqn:Ep; [lia | exact Hx]. }
+      destruct FS as [[Z0 El3]|[N Rm]].
+      + rewrite El3. repeat split.
+        * right. exists nb. simpl. rewrite Z.eqb_refl. reflexivity.
+        * apply OuNew. intros q _ _. reflexivity.
+        * right. exact PneU.
+        * intros blk [Hb|Hb]; [left; subst blk; reflexivity | right].
+          destruct (Ex blk Hb) as [Q|Q]; [|exact Q].
+          exfalso. apply (heap_wf_nonzero _ _ Hwf Hb). rewrite Q. exact Z0.
+      + simpl in Rm. destruct (p =? v_data v) eqn:Ep; [exfalso; apply (PneV N); lia|].
+        destruct (h_remove (w_live ost w) (v_data v)) as [l'|] eqn:Rm0; [|discriminate].
+        inversion Rm as [Rl]. repeat split.
+        * right. exists nb. simpl. rewrite Z.eqb_refl. reflexivity.
+        * apply OuNew. intros q Hqp [Hqv|Hz]; [|contradiction]. simpl.
+          destruct (p =? q); [reflexivity|]. apply (h_find_remove_other _ _ _ _ Rm0 Hqv).
+        * right. exact PneU.
+        * intros blk [Hb|Hb]; [left; subst blk; reflexivity | right].
+          destruct (Ex blk (h_remove_sub _ _ _ Rm0 blk Hb)) as [Q|Q]; [|exact Q].
+          exfalso. destruct (h_find_in _ _ Hb) as [y Hy]. rewrite Q in Hy.
+          rewrite (h_remove_gone _ _ _ Hwf Rm0) in Hy. discriminate.
+    - contradiction.
+  Qed.
+
+  (* every vector operation either leaves the heap and data() alone, or is one reallocation *)
+  Lemma vop_shape w v o r w' v' :
+    vop_wf o -> 0 <= v_size v ->
+    vapply w v o = (r, w', v') ->
+    (w_live ost w' = w_live ost w /\ v_data v' = v_data v /\ r <> OInvalidFree) \/
+    (exists keep c r1 w1 v1,
+        vrealloc keep w v c = (r1, w1, v1) /\ w_live ost w' = w_live ost w1 /\
+        v_data v' = v_data v1 /\ (r = OInvalidFree -> r1 = OInvalidFree) /\ 0 <= c).
+  Proof.
+    intros Ho Hs.
+    assert (L : forall (w0 : world ost) v0 rr, w_live ost w0 = w_live ost w -> v_data v0 = v_data v -> rr <> OInvalidFree ->
+              (rr, w0, v0) = (r, w', v') ->
+              (w_live ost w' = w_live ost w /\ v_data v' = v_data v /\ r <> OInvalidFree) \/
+              (exists keep c r1 w1 v1,
+                  vrealloc keep w v c = (r1, w1, v1) /\ w_live ost w' = w_live ost w1 /\
+                  v_data v' = v_data v1 /\ (r = OInvalidFree -> r1 = OInvalidFree) /\ 0 <= c)).
+    { intros w0 v0 rr A B C E. inversion E. subst. left. auto. }
+    destruct o as [t x|t n x|t n|t|t n x|t|]; cbn [v_op]; simpl in Ho.
+    - destruct (v_size v <? v_cap v); [apply L; try reflexivity; discriminate|].
+      destruct (vmax - v_size v <? 1) eqn:E1; [apply L; try reflexivity; discriminate|].
+      destruct (vrealloc true w v (grow (v_size v) 1)) as [[r1 w1] v1] eqn:R.
+      assert (Hc : 0 <= grow (v_size v) 1) by (pose proof (grow_good (v_size v) 1); lia).
+      intro E. right. exists true, (grow (v_size v) 1), r1, w1, v1. split; [exact R|].
+      destruct r1; inversion E; subst; simpl; repeat split; auto; try discriminate.
+    - destruct (n <=? v_size v) eqn:E0; [apply L; try reflexivity; discriminate|].
+      destruct (n <=? v_cap v); [apply L; try reflexivity; discriminate|].
+      destruct (vmax - v_size v <? n - v_size v) eqn:E1; [apply L; try reflexivity; discriminate|].
+      destruct (vrealloc true w v (grow (v_size v) (n - v_size v))) as [[r1 w1] v1] eqn:R.
+      assert (Hc : 0 <= grow (v_size v) (n - v_size v)) by (pose proof (grow_good (v_size v) (n - v_size v)); lia).
+      intro E. right. exists true, (grow (v_size v) (n - v_size v)), r1, w1, v1. split; [exact R|].
+      destruct r1; inversion E; subst; simpl; repeat split; auto; try discriminate.
+    - destruct (vmax <? n); [apply L; try reflexivity; discriminate|].
+      destruct (n <=? v_cap v); [apply L; try reflexivity; discriminate|].
+      destruct (vrealloc true w v n) as [[r1 w1] v1] eqn:R.
+      intro E. right. exists true, n, r1, w1, v1. split; [exact R|].
+      inversion E; subst; simpl; repeat split; auto.
+    - destruct (v_cap v =? v_size v); [apply L; try reflexivity; discriminate|].
+      destruct (vrealloc true w v (v_size v)) as [[r1 w1] v1] eqn:R.
+      intro E. right. exists true, (v_size v), r1, w1, v1. split; [exact R|].
+      destruct r1; inversion E; subst; simpl; repeat split; auto; try discriminate.
+    - destruct (n <=? v_cap v); [apply L; try reflexivity; discriminate|].
+      destruct (vmax <? n); [apply L; try reflexivity; discriminate|].
+      destruct (vrealloc false w v n) as [[r1 w1] v1] eqn:R.
+      intro E. right. exists false, n, r1, w1, v1. split; [exact R|].
+      destruct r1; inversion E; subst; simpl; repeat split; auto; try discriminate.
+    - apply L; try reflexivity; discriminate.
+    - apply L; try reflexivity; discriminate.
+  Qed.
+
+  Lemma pair_own_data live v u v' :
+    v_data v' = v_data v -> pair_own live v u -> pair_own live v' u.
+  Proof. unfold pair_own, owns. intros E. rewrite E. auto. Qed.
+
+  Lemma vop_own w v u o r w' v' :
+    vop_wf o -> heap_wf (w_live ost w) -> vinv v -> pair_own (w_live ost w) v u ->
+    vapply w v o = (r, w', v') ->
+    r <> OInvalidFree /\ pair_own (w_live ost w') v' u.
+  Proof.
+    intros Ho Hwf Iv P E. pose proof Iv as [_ [I2 _]].
+    destruct (vop_shape _ _ _ _ _ _ Ho I2 E) as [[A [B C]]|[keep [c [r1 [w1 [v1 [R [A [B [C Hc]]]]]]]]]].
+    - split; [exact C|]. rewrite A. apply (pair_own_data _ v); assumption.
+    - destruct (vrealloc_own _ _ _ _ _ _ _ _ Hc Hwf P R) as [N Q].
+      split; [intro X; apply N; apply C; exact X|].
+      rewrite A. apply (pair_own_data _ v1); assumption.
+  Qed.
+
   Definition sinv (s : vstate ost) : Prop :=
     heap_wf (w_live ost (s_w ost s)) /\ vinv (s_a ost s) /\ vinv (s_b ost s).
 
@@ -579,6 +786,37 @@ Section WithBackend.
   Proof.
     unfold sinv, vs_init, vinv, aligned64, vnull. simpl.
     repeat split; auto; lia.
+  Qed.
+
+  Definition sown (s : vstate ost) : Prop :=
+    pair_own (w_live ost (s_w ost s)) (s_a ost s) (s_b ost s).
+
+  Lemma vsstep_own s o :
+    vop_wf o -> sinv s -> sown s ->
+    fst (vsstep s o) <> OInvalidFree /\ sown (snd (vsstep s o)).
+  Proof.
+    intros Ho [Hw [Ha Hb]] P. unfold vs_step, sown in *.
+    destruct (vop_target o) as [[|]|].
+    - destruct (vapply (s_w ost s) (s_b ost s) o) as [[r w'] v'] eqn:E.
+      destruct (vop_own _ _ (s_a ost s) _ _ _ _ Ho Hw Hb (pair_own_sym _ _ _ P) E) as [N Q].
+      simpl. split; [exact N | apply pair_own_sym; exact Q].
+    - destruct (vapply (s_w ost s) (s_a ost s) o) as [[r w'] v'] eqn:E.
+      destruct (vop_own _ _ (s_b ost s) _ _ _ _ Ho Hw Ha P E) as [N Q].
+      simpl. split; [exact N | exact Q].
+    - simpl. split; [discriminate | apply pair_own_sym; exact P].
+  Qed.
+
+  Lemma vsrun_own ops : forall s, Forall vop_wf ops -> sinv s -> sown s ->
+    sinv (vsrun s ops) /\ sown (vsrun s ops).
+  Proof.
+    induction ops as [|o ops IH]; intros s Hops Hs Ho; simpl; [split; assumption|].
+    inversion Hops; subst. apply IH; [assumption | apply vsstep_inv; assumption | apply vsstep_own; assumption].
+  Qed.
+
+  Lemma sown_init st : sown (vs_init ost st).
+  Proof.
+    unfold sown, pair_own, owns, vs_init, vnull. simpl.
+    repeat split; auto. intros blk [].
   Qed.
 End WithBackend.
 
@@ -660,4 +898,48 @@ Proof.
       inversion R. subst. simpl. destruct AC as [E _]. repeat split; try reflexivity; try lia. left. reflexivity.
     + match type of R with context [aligned_free ost be_free ?w2 ?q] => destruct (aligned_free ost be_free w2 q) end; [|discriminate].
       inversion R. subst. simpl. destruct AC as [_ [_ [D _]]]. repeat split; try reflexivity. right. exact D.
+Qed.
+
+(* ---- ownership over every history (statements as used by Properties.v) *)
+Lemma vector_ownership ost be_malloc be_free ndebug sizeT vmax grow st ops :
+  be_contract be_malloc -> 0 < sizeT -> grow_ok vmax grow -> Forall vop_wf ops ->
+  let s := vs_run ost be_malloc be_free ndebug sizeT vmax grow (vs_init ost st) ops in
+  let live := w_live ost (s_w ost s) in
+  let a := s_a ost s in let b := s_b ost s in
+  (v_data a = 0 \/ exists x, h_find live (v_data a) = Some x) /\
+  (v_data b = 0 \/ exists x, h_find live (v_data b) = Some x) /\
+  (v_data a = 0 \/ v_data a <> v_data b) /\
+  (forall blk, In blk live -> b_addr blk = v_data a \/ b_addr blk = v_data b) /\
+  (forall o, vop_wf o ->
+     fst (vs_step ost be_malloc be_free ndebug sizeT vmax grow s o) <> OInvalidFree).
+Proof.
+  intros Hc Hs Hg Hops s live a b.
+  assert (I : sinv ost s /\ sown ost s).
+  { unfold s. eapply vsrun_own; try eassumption; try apply sinv_init; try apply sown_init;
+      try exact be_free; try exact 0; try exact (fun _ _ => 0). }
+  destruct I as [I1 I2]. pose proof I2 as [A [B [C D]]].
+  split; [exact A|]. split; [exact B|]. split; [exact C|]. split; [exact D|].
+  intros o Ho.
+  assert (Q : fst (vs_step ost be_malloc be_free ndebug sizeT vmax grow s o) <> OInvalidFree /\
+              sown ost (snd (vs_step ost be_malloc be_free ndebug sizeT vmax grow s o))).
+  { eapply vsstep_own; try eassumption. }
+  exact (proj1 Q).
+Qed.
+
+(* elements survive reallocation, for every reachable state and either vector: no ownership premise *)
+Lemma vrealloc_keeps_reachable ost be_malloc be_free ndebug sizeT vmax grow st ops v c w' v' :
+  be_contract be_malloc -> 0 < sizeT -> grow_ok vmax grow -> Forall vop_wf ops ->
+  let s := vs_run ost be_malloc be_free ndebug sizeT vmax grow (vs_init ost st) ops in
+  v = s_a ost s \/ v = s_b ost s -> v_size v <= c ->
+  v_realloc ost be_malloc be_free ndebug sizeT true (s_w ost s) v c = (OOk, w', v') ->
+  v_contents sizeT (w_mem ost w') v' = v_contents sizeT (w_mem ost (s_w ost s)) v /\
+  v_size v' = v_size v /\ v_cap v' = c /\ aligned64 v'.
+Proof.
+  intros Hc Hs Hg Hops s Hv Hsz R.
+  destruct (vector_history ost be_malloc be_free ndebug sizeT vmax grow st ops Hc Hs Hg Hops) as [Hwf Hv2].
+  destruct (vector_ownership ost be_malloc be_free ndebug sizeT vmax grow st ops Hc Hs Hg Hops) as [A [B _]].
+  fold s in Hwf, Hv2, A, B. destruct (Hv2 v Hv) as [S0 _].
+  apply (vrealloc_keeps_stmt ost be_malloc be_free ndebug sizeT (s_w ost s) v c w' v' Hc Hs Hwf); try assumption.
+  - lia.
+  - destruct Hv as [E|E]; subst v; assumption.
 Qed.
